@@ -18,6 +18,7 @@ pub mod c15;
 pub mod c16;
 pub mod c18;
 pub mod c18_sessions;
+pub mod c19;
 
 /// dispatch; false if the id is unknown
 pub fn run(ctx: &Ctx) -> bool {
@@ -39,6 +40,7 @@ pub fn run(ctx: &Ctx) -> bool {
         "C15" => c15::run(ctx),
         "C16" => c16::run(ctx),
         "C18" => c18::run(ctx),
+        "C19" => c19::run(ctx),
         _ => return false,
     }
     true
